@@ -22,7 +22,11 @@ def _post(R, lines, diffs):
     n = sum(st.values())
     if st.get("ok 200", 0) * 8 < n or st.get("ok 400", 0) * 20 < n:
         raise RuntimeError("broken harness: status mix degenerate: %s" % st)
-    if len(no200) > 8:
+    # the node has no peers and CSRF is off, so these four can only answer 404/503; any other route must
+    # have been driven with parameters it accepts at least once
+    no200 = [p for p in no200 if p not in ("/api/v1/csrf", "/api/v1/network/connection", "/api/v1/network/connection/disconnect",
+                                            "/api/v1/resendUnconfirmedTxns")]
+    if len(no200) > 2:
         raise RuntimeError("broken harness: too many routes never answered 200 (parameters never valid): %s" % no200)
     kinds = set(re.search(r"k=(\S+)", op).group(1) for op, _ in lines if op.startswith("verify "))
     if len(kinds) < 15:
@@ -75,8 +79,8 @@ CONFIG = dict(
         "deadline 20 s per request in-process; decimal exponents |e| <= 4000 and address counts <= 101 in generated requests",
     ],
     rule="per case: fresh node; 34 verify ops (17 transaction kinds x signed flag) before and after; every route's documented request once; "
-         "450 (quick) / 700 (thorough) generated requests per case over all routes of the regenerated table with per-parameter "
+         "450 (quick) / 800 (thorough) generated requests per case over all routes of the regenerated table with per-parameter "
          "valid(65%)/malformed/duplicated/empty/missing choice, JSON bodies with type confusion and structural mutations, encoded transactions "
-         "of 20 kinds (valid, spending spent/unknown/mixed inputs, confirmed, pooled, unsigned, truncated, bit-flipped, ...); 14 / 120 cases. "
+         "of 20 kinds (valid, spending spent/unknown/mixed inputs, confirmed, pooled, unsigned, truncated, bit-flipped, ...); 30 / 300 cases. "
          "distinct = distinct (op, outcome) lines",
 )
